@@ -314,6 +314,7 @@ pub fn run_prop(prop: Prop, cases: u32, max_ops: usize, seed: u64, threads: usiz
                     Ok(()) => {}
                     Err(TestError::Fail(reason, case)) => {
                         stop.store(true, Ordering::Relaxed);
+                        let case = crate::props::resolve_fault(prop, &case);
                         found.lock().unwrap().push(Found { order: (t, 0), case, msg: reason.message().to_string() });
                     }
                     Err(TestError::Abort(reason)) => {
